@@ -305,8 +305,9 @@ def c03_6(ctx):
 
 def c03_mute(ctx):
     """'Unmuted' is decided by the condition stack's mute counter: its state machine is re-evaluated here."""
-    from rules.c08 import mute_state
+    from rules.c08 import mute_state, mute_guards
     mute_state(ctx)
+    mute_guards(ctx)
     load = ctx.repo.func('bespokeasm.assembler.assembly_file.AssemblyFile.load_line_objects')
     ms = [n for n in walk_no_nested(load.node) if isinstance(n, ast.Assign) and unparse(n.targets[0]) == 'lobj.is_muted']
     ctx.check(len(ms) == 1 and unparse(ms[0].value) == 'condition_stack.is_muted', 'mute:line-flag=stack-state', load.site(ms[0]) if ms else load.site(),
